@@ -12,6 +12,7 @@
 EXTENDS Integers, Sequences, FiniteSets, TLC, FsOps
 
 CONSTANTS Base, Count, MaxRolls,
+          MaxWipes,   \* how often the archive directory is removed, with everything in it, between two rolls
           Kind        \* "window" | "delete" (the delete roller ignores Base / Count)
 
 Lo == IF Base > 0 THEN Base - 1 ELSE Base
@@ -23,31 +24,38 @@ VARIABLES act,       \* the file at the active path
           init,      \* the initial arch (for OutsideUntouched)
           rolled,    \* contents handed to roll(), most recent first
           pc, i,     \* "idle" | "shift" | "final"; next shift moves i -> i+1
-          nextc      \* next fresh content id
-vars == <<act, arch, init, rolled, pc, i, nextc>>
+          nextc,     \* next fresh content id
+          nr, wipes  \* rolls started; removals of the archive directory
+vars == <<act, arch, init, rolled, pc, i, nextc, nr, wipes>>
 
 Init == /\ act = Absent
         /\ \E P \in SUBSET Idx : arch = [k \in Idx |-> IF k \in P THEN File(<<100 + k>>) ELSE Absent]
-        /\ init = arch /\ rolled = <<>> /\ pc = "idle" /\ i = 0 /\ nextc = 1
+        /\ init = arch /\ rolled = <<>> /\ pc = "idle" /\ i = 0 /\ nextc = 1 /\ nr = 0 /\ wipes = 0
 \* the caller (the appender) has written a file at the active path and calls roll()
-StartRoll == /\ pc = "idle" /\ Len(rolled) < MaxRolls
+StartRoll == /\ pc = "idle" /\ nr < MaxRolls /\ nr' = nr + 1
              /\ act' = File(<<nextc>>) /\ nextc' = nextc + 1
              /\ rolled' = <<nextc>> \o rolled
              /\ IF Kind = "delete" \/ Count = 0 THEN pc' = "remove" /\ UNCHANGED i
                 ELSE pc' = "shift" /\ i' = Base + Count - 2
-             /\ UNCHANGED <<arch, init>>
-Remove == pc = "remove" /\ act' = Absent /\ pc' = "idle" /\ UNCHANGED <<arch, init, rolled, i, nextc>>
+             /\ UNCHANGED <<arch, init, wipes>>
+Remove == pc = "remove" /\ act' = Absent /\ pc' = "idle" /\ UNCHANGED <<arch, init, rolled, i, nextc, nr, wipes>>
 Shift == /\ pc = "shift"
          /\ IF i < Base THEN pc' = "final" /\ UNCHANGED <<arch, i>>
             ELSE LET m == Move(arch[i], arch[i + 1]) IN
                  /\ m.ok      \* no obstacles in this module
                  /\ arch' = [arch EXCEPT ![i] = m.src, ![i + 1] = m.dst]
                  /\ i' = i - 1 /\ pc' = pc
-         /\ UNCHANGED <<act, init, rolled, nextc>>
+         /\ UNCHANGED <<act, init, rolled, nextc, nr, wipes>>
 Final == /\ pc = "final"
          /\ LET m == Move(act, arch[Base]) IN act' = m.src /\ arch' = [arch EXCEPT ![Base] = m.dst]
-         /\ pc' = "idle" /\ UNCHANGED <<init, rolled, i, nextc>>
-Next == StartRoll \/ Remove \/ Shift \/ Final
+         /\ pc' = "idle" /\ UNCHANGED <<init, rolled, i, nextc, nr, wipes>>
+\* Between two rolls of one roller the archive directory is removed with everything in it (an operator clears the
+\* archives; a temporary directory is cleaned): the next roll starts from the empty directory, exactly as the very
+\* first roll of a fresh roller does when the directory does not exist yet - it creates what it needs.
+Wipe == /\ pc = "idle" /\ nr >= 1 /\ nr < MaxRolls /\ wipes < MaxWipes
+        /\ arch' = [k \in Idx |-> Absent] /\ init' = arch' /\ rolled' = <<>> /\ wipes' = wipes + 1
+        /\ UNCHANGED <<act, pc, i, nextc, nr>>
+Next == StartRoll \/ Remove \/ Shift \/ Final \/ Wipe
 Spec == Init /\ [][Next]_vars
 
 Min(a, b) == IF a < b THEN a ELSE b
